@@ -13,5 +13,5 @@ if [ "${SUITE:-0}" = 1 ]; then
   PYTHONPATH="$wt/src" /venv/bin/python -m pytest -q -p no:cacheprovider -n 8 tests/unit_tests tests/contract_tests -q 2>&1 | tail -2
 fi
 cd /verif
-VERIF_REPO="$wt" VERIF_SKIP_MAKE=1 ./check "$pid" ${TIER:+--tier $TIER} 2>&1 | cut -c1-400 | head -12
+VERIF_REPO="$wt" VERIF_SKIP_MAKE=1 ./check "$pid" ${TIER:+--tier $TIER} 2>&1 | grep -A1 -E "^(VIOLATION|OK|KNOWN-FINDING|INTERNAL-ERROR)" | cut -c1-400 | head -14
 echo "check exit: ${PIPESTATUS[0]}"
